@@ -320,5 +320,11 @@ NoSelfDeadlock == ~lockDead
 FillEnds == filling ~> ~filling
 AllClosedEventually == <>[](closed => open = {})
 CloseReturns == \A k \in Closers : kpc[k] = "closing" ~> kpc[k] = "done"
+\* a removed connection is replaced: the fill() spawned by HandleError (or whoever fills instead of it) brings
+\* the pool back to its size, unless the pool is closed or a connect fails.  Stated for the moment the spawned fill
+\* starts with nobody filling (a filler that computed its count before the loss does not make up for it) and for
+\* instances with a single kill (MaxKill = 1).
+PoolRefilled == \A h \in Spawned : (fpc[h] = "start" /\ ~filling /\ ~closed /\ MaxKill = 1)
+                                        ~> (closed \/ Cardinality(conns) = Size \/ fails > 0 \/ lockDead)
 \* a removed connection is replaced when nothing fails and the pool stays open
 =============================================================================
